@@ -347,3 +347,41 @@ Proof.
   - intros key Hk. eapply get_never_skips; eauto.
   - eapply pick_never_skips; eauto.
 Qed.
+
+(* ---- Add and AddStaleKey: the flag is irrelevant for the filter ---- *)
+Lemma builder_hashes_acc adds hs0 :
+  fold_left (fun hs a => add_helper hs (fst a) (snd a)) adds hs0 = hs0 ++ key_hashes (map snd adds).
+Proof.
+  revert hs0; induction adds as [|a adds IH]; intros hs0; cbn [fold_left map key_hashes].
+  - rewrite app_nil_r. reflexivity.
+  - rewrite IH. unfold add_helper, key_hashes. rewrite <- app_assoc. reflexivity.
+Qed.
+
+Lemma builder_hashes_flag_irrelevant adds : builder_hashes adds = key_hashes (map snd adds).
+Proof. unfold builder_hashes. rewrite builder_hashes_acc. reflexivity. Qed.
+
+Lemma build_bloom_adds_eq adds fp_pos bitsPerKey :
+  build_bloom_adds adds fp_pos bitsPerKey = build_bloom (map snd adds) fp_pos bitsPerKey.
+Proof. unfold build_bloom_adds, build_bloom. rewrite builder_hashes_flag_irrelevant. reflexivity. Qed.
+
+(* every key added through Add or AddStaleKey is reported present *)
+Lemma does_not_have_added_either adds fp_pos bitsPerKey bf is_stale ik :
+  build_bloom_adds adds fp_pos bitsPerKey = Some bf -> In (is_stale, ik) adds ->
+  does_not_have bf (hash (parse_key ik)) = Some false.
+Proof.
+  rewrite build_bloom_adds_eq. intros Hb Hin. eapply does_not_have_added; eauto.
+  apply (in_map snd) in Hin. exact Hin.
+Qed.
+
+Lemma skips_never_either adds fp_pos bitsPerKey bf is_stale ik :
+  build_bloom_adds adds fp_pos bitsPerKey = Some bf -> In (is_stale, ik) adds ->
+  (forall key, parse_key key = parse_key ik -> get_skips_table bf key = Some false) /\
+  pick_skips_table bf (parse_key ik) = Some false /\
+  (bf <> [] -> may_contain_key bf (parse_key ik) = Some true).
+Proof.
+  rewrite build_bloom_adds_eq. intros Hb Hin. apply (in_map snd) in Hin. cbn [snd] in Hin.
+  destruct (bloom_skip_sound _ _ _ _ _ Hb Hin) as [H1 H2]. split; [exact H1|]. split; [exact H2|].
+  intros Hne. unfold pick_skips_table, does_not_have in H2.
+  destruct (length bf =? 0)%nat eqn:E; [destruct bf; [contradiction|discriminate]|].
+  unfold may_contain_key. destruct (may_contain bf (hash (parse_key ik))) as [[|]|]; cbn in H2; congruence.
+Qed.
